@@ -65,12 +65,13 @@ Proof.
 Qed.
 Print Assumptions C18_public_names_unbound.
 
-(* 5. a signal of a Module is listed as a port exactly when it has port visibility *)
-Theorem C18_ports_iff_port_visible ops n v p :
+(* 5. a signal of a Module is listed as a port exactly when it has port visibility - WHATEVER its `direction` d is
+      (h.Signal(direction=PortDir.INPUT), an h.Input() whose vis was set to INTERNAL: internal signals carrying a direction) *)
+Theorem C18_ports_iff_port_visible ops n v p d :
   let s := run CModule ops in
-  get s n = Some v -> v_kind v = KSignal p ->
+  get s n = Some v -> v_kind v = KSignal p d ->
   (lookup n (st_views s VPorts) = Some v <-> p = true) /\ (lookup n (st_views s VSignals) = Some v <-> p = false).
-Proof. intros s. exact (coh_ports CModule s n v p eq_refl (C18_coh_reachable CModule ops)). Qed.
+Proof. intros s. exact (coh_ports CModule s n v p d eq_refl (C18_coh_reachable CModule ops)). Qed.
 Print Assumptions C18_ports_iff_port_visible.
 
 (* 6. the stored object reports this container as its parent, carries the key as its name, is of a storable
@@ -153,7 +154,7 @@ Print Assumptions C18_class_equals_procedural.
 
 (* ---- non-vacuity: concrete, non-trivial instances *)
 Open Scope string_scope.
-Definition sigv (i : Z) := V i (KSignal false) None.
+Definition sigv (i : Z) := V i (KSignal false DNone) None.
 Definition instv (i : Z) := V i KInstance None.
 
 (* the pinned-tree witness: x was a signal, becomes an instance; it leaves `signals` *)
@@ -166,7 +167,7 @@ Proof. vm_compute. repeat split. Qed.
 (* reserved names, non-HDL values, deletion, edits after elaboration: rejected, state unchanged *)
 Example C18_ex_rejections :
   let s := run CModule [SetAttr "a" (sigv 0)] in
-  is_ok (step CModule s (Add (V 1 (KSignal false) (Some "ports")) None)) = false /\
+  is_ok (step CModule s (Add (V 1 (KSignal false DNone) (Some "ports")) None)) = false /\
   is_ok (step CModule s (SetAttr "bundle_ports" (sigv 1))) = false /\
   is_ok (step CModule s (SetAttr "name" (sigv 1))) = false /\
   is_ok (step CModule s (SetAttr "name" (V 1 KStr None))) = true /\
@@ -186,6 +187,6 @@ Example C18_ex_class :
 Proof. eexists. vm_compute. repeat split. eexists. reflexivity. Qed.
 
 Example C18_ex_ports :
-  let s := run CModule [SetAttr "p" (V 0 (KSignal true) None); SetAttr "p" (sigv 1); Add (V 2 (KSignal true) (Some "q")) None] in
+  let s := run CModule [SetAttr "p" (V 0 (KSignal true DNone) None); SetAttr "p" (sigv 1); Add (V 2 (KSignal true DNone) (Some "q")) None] in
   keys (st_views s VPorts) = ["q"] /\ keys (st_views s VSignals) = ["p"] /\ st_owned s = [2; 1; 0].
 Proof. vm_compute. repeat split. Qed.
